@@ -352,7 +352,7 @@ func runRoutes(src string, inFunc bool) ([]*obs, string) {
 func main() {
 	env := FromFlags("c01")
 	env.Import = "Otto.C01.Corr"
-	env.Rule = "(a) MiniJS+ programs (coq/C01/Full.v: hoisted var/function declarations, closures, this, arguments, call/apply/bind, constructors with prototype methods, instanceof/typeof/in/delete, while/do-while/for/for-in, switch with fall-through, labelled jumps, try/catch binding/finally) compared with the ES5 reference semantics, preceded on every seed by the deterministic families of fulljs.Pinned (operator x operand-kind pairs converted through user valueOf/toString, repeated parameter names x argument count x call route, every route to an indirect eval x this value x calling context, primitive this boxing, non-callable callees); (b) MiniJS programs from a weighted grammar (blocks, if, counter-bounded while, labelled statements, break/continue with and without labels, return, throw, try/catch/finally; expressions with assignment, ++, && || ?:, host call log) in function mode and global mode, each submitted by all five routes; non-trivial = distinct program containing at least one jump (break/continue/return/throw) inside a labelled statement, loop or try"
+	env.Rule = "(a) MiniJS+ programs (coq/C01/Full.v: hoisted var/function declarations, closures, this, arguments, call/apply/bind, constructors with prototype methods, instanceof/typeof/in/delete, while/do-while/for/for-in, switch with fall-through, labelled jumps, try/catch binding/finally) compared with the ES5 reference semantics, preceded on every seed by the deterministic families of fulljs.Pinned (operator x operand-kind pairs converted through user valueOf/toString, repeated parameter names x argument count x call route, every route to an indirect eval x this value x calling context, string operands of + and +=, the value-producing operators ?: && || , around a Reference in callee / eval / typeof / delete / new position, primitive this boxing, non-callable callees); (b) MiniJS programs from a weighted grammar (blocks, if, counter-bounded while, labelled statements, break/continue with and without labels, return, throw, try/catch/finally; expressions with assignment, ++, && || ?:, host call log) in function mode and global mode, each submitted by all five routes; non-trivial = distinct program containing at least one jump (break/continue/return/throw) inside a labelled statement, loop or try"
 	// pinned witnesses of the listed findings come first
 	pinned := []minijs.Program{
 		{InFunc: false, Body: []minijs.Stmt{minijs.SLabelled{L: 1, S: minijs.SIf{E: minijs.Lit{Kind: 2}, A: minijs.SBreak{L: 1}}}, minijs.SExpr{E: minijs.Log{E: minijs.Lit{Kind: 1, N: 5}}}}},
